@@ -1,11 +1,16 @@
 package main
 
 import (
+	"bytes"
 	"encoding/json"
 	"fmt"
-	"github.com/ipld/go-ipld-prime"
 	"math/rand"
 	"strings"
+	"unicode/utf8"
+
+	"github.com/ipld/go-ipld-prime"
+	"github.com/ipld/go-ipld-prime/codec/dagcbor"
+	"github.com/ipld/go-ipld-prime/codec/dagjson"
 
 	"github.com/ipld/go-ipld-prime/datamodel"
 	"github.com/ipld/go-ipld-prime/fluent/qp"
@@ -155,6 +160,64 @@ func likeViaIPLDK(pat, str, kind string) (res string, err error) {
 	return "false", nil
 }
 
+// likeViaWireK: the statement built with the Go constructor, written out (ToIPLD, DAG-CBOR or DAG-JSON by `codec`), read
+// back and evaluated: the pattern the reader gets is the pattern the writer held.
+func likeViaWireK(pat, str, kind string, codec int) (res string, err error) {
+	defer func() {
+		if r := recover(); r != nil {
+			res, err = "panic", fmt.Errorf("panic: %v", r)
+		}
+	}()
+	pol, cerr := policy.Construct(policy.Like(".", pat))
+	if cerr != nil {
+		return "reject", nil
+	}
+	var back policy.Policy
+	switch codec {
+	case 0:
+		nd, e := pol.ToIPLD()
+		if e != nil {
+			return "", e
+		}
+		var buf bytes.Buffer
+		if e := dagcbor.Encode(nd, &buf); e != nil {
+			return "", e
+		}
+		nb := basicnode.Prototype.Any.NewBuilder()
+		if e := dagcbor.Decode(nb, &buf); e != nil {
+			return "", e
+		}
+		back, e = policy.FromIPLD(nb.Build())
+		if e != nil {
+			return "", fmt.Errorf("the written policy is refused: %w", e)
+		}
+	default:
+		nd, e := pol.ToIPLD()
+		if e != nil {
+			return "", e
+		}
+		var buf bytes.Buffer
+		if e := dagjson.Encode(nd, &buf); e != nil {
+			return "", e
+		}
+		back, e = policy.FromDagJson(buf.String())
+		if e != nil {
+			if !utf8.ValidString(pat) {
+				return "skip", nil // DAG-JSON carries text: a pattern that is not UTF-8 has no JSON spelling
+			}
+			return "", fmt.Errorf("the written policy is refused: %w", e)
+		}
+		if !utf8.ValidString(pat) {
+			return "skip", nil
+		}
+	}
+	ok, _ := back.Match(valueOfKind(kind, str))
+	if ok {
+		return "true", nil
+	}
+	return "false", nil
+}
+
 type globCase struct {
 	Pat    []int  `json:"pat"`
 	Str    []int  `json:"str"`
@@ -195,6 +258,14 @@ func init() {
 			if a2 != c.Expect {
 				rep.violation(c, c.Expect, a2, fmt.Sprintf("policy.FromIPLD like %q on %q", pat, str))
 			}
+			for codec := 0; codec < 2; codec++ {
+				a4, err4 := likeViaWireK(pat, str, "string", codec)
+				if err4 != nil {
+					rep.violation(c, c.Expect, err4.Error(), fmt.Sprintf("policy.Like(%q) written out and read back (codec %d)", pat, codec))
+				} else if a4 != c.Expect && a4 != "skip" {
+					rep.violation(c, c.Expect, a4, fmt.Sprintf("policy.Like(%q) written out (ToIPLD, codec %d), read back, on %q", pat, codec, str))
+				}
+			}
 			// the same pattern under every constructor that can wrap a like: an invalid pattern is refused wherever it
 			// stands, a valid one means the same
 			for _, wv := range likeWrapped(pat, str) {
@@ -225,6 +296,11 @@ func init() {
 			k := rng.Intn(max + 1)
 			s := ""
 			for i := 0; i < k; i++ {
+				if rng.Intn(6) == 0 {
+					// any byte at all stands for itself: control characters (NUL first), DEL, 0xff
+					s += []string{"\x00", "\x00", "\x01", "\x7f", string([]byte{byte(rng.Intn(256))})}[rng.Intn(5)]
+					continue
+				}
 				s += atoms[rng.Intn(len(atoms))]
 			}
 			return s
@@ -296,7 +372,17 @@ func init() {
 			if err != nil {
 				res2 = "panic"
 			}
-			emit(map[string]any{"ev": "Like", "pat": intsOf(pat), "str": intsOf(str), "kind": kind, "res": res, "res2": res2})
+			res3 := res
+			for codec := 0; codec < 2; codec++ {
+				r3, err := likeViaWireK(pat, str, kind, codec)
+				if err != nil {
+					r3 = "panic: " + err.Error()
+				}
+				if r3 != "skip" && r3 != res {
+					res3 = r3
+				}
+			}
+			emit(map[string]any{"ev": "Like", "pat": intsOf(pat), "str": intsOf(str), "kind": kind, "res": res, "res2": res2, "res3": res3})
 		}
 		return nil
 	}
